@@ -9,6 +9,7 @@ import (
 	"go/types"
 	"os"
 	"path/filepath"
+	"slices"
 	"sort"
 	"strings"
 
@@ -119,7 +120,20 @@ func (w *World) dumpFunctions() []byte {
 // refactoring passes around together, a frame of an explicit stack): its fields are not state
 // or inputs of their own - what is stored into them is.
 func (w *World) isNewTypeName(qual string) bool {
-	return w != nil && w.base.loaded && len(w.base.types) > 0 && !w.base.types[qual]
+	if w == nil || !w.base.loaded || len(w.base.types) == 0 || w.base.types[qual] {
+		return false
+	}
+	// only a type of gleece itself can be new (go/ast.GenDecl is not in the table either)
+	if w.analysedShort == nil {
+		w.analysedShort = map[string]bool{}
+		for _, p := range w.Pkgs {
+			if isAnalysedPkg(p.PkgPath) {
+				w.analysedShort[short(p.PkgPath)] = true
+			}
+		}
+	}
+	i := strings.LastIndex(qual, ".")
+	return i > 0 && w.analysedShort[qual[:i]]
 }
 
 // sigChanged: a reviewed function whose parameter or result types are no longer the reviewed
@@ -392,8 +406,8 @@ type astCallSite struct {
 }
 
 type newParam struct {
-	Key string
-	Idx int // -1: receiver
+	Key      string
+	Idx      int // -1: receiver
 	Variadic bool
 }
 
@@ -424,6 +438,16 @@ func (w *World) buildASTNewIndex() {
 					}
 				}
 			}
+			// a reviewed function whose signature changed keeps the parameters it had (what the
+			// tables say about them still holds): only parameters of a type the reviewed
+			// signature did not mention are read as what the callers pass
+			oldSig := ""
+			if !w.isNewName(k) {
+				oldSig = w.base.sigs[k]
+				if i := strings.Index(oldSig, "|func("); i >= 0 {
+					oldSig = oldSig[i:]
+				}
+			}
 			i := 0
 			for _, f := range fi.Decl.Type.Params.List {
 				if len(f.Names) == 0 {
@@ -432,7 +456,9 @@ func (w *World) buildASTNewIndex() {
 				_, isVariadic := f.Type.(*ast.Ellipsis)
 				for _, n := range f.Names {
 					if o := info.Defs[n]; o != nil {
-						w.newParams[o] = newParam{Key: k, Idx: i, Variadic: isVariadic}
+						if oldSig == "" || !strings.Contains(oldSig, short(types.TypeString(o.Type(), nil))) {
+							w.newParams[o] = newParam{Key: k, Idx: i, Variadic: isVariadic}
+						}
 					}
 					i++
 				}
@@ -1239,6 +1265,75 @@ func (w *World) detectRenames() {
 				nameAlias[best] = g
 				taken[best] = true
 			}
+		}
+	}
+	// a reviewed function that is gone while its callers - every one of them that still exists -
+	// now call one and the same new function of its package in its stead, whose body mentions
+	// everything the reviewed body did: the function under a new name AND a new parameter list
+	// (its parameters gathered into a struct, a function made a method of that struct)
+	aliased := map[string]bool{}
+	for _, g := range nameAlias {
+		aliased[g] = true
+	}
+	var goneKeys []string
+	for k := range w.base.sigs {
+		if w.Funcs[k] == nil && !aliased[k] {
+			goneKeys = append(goneKeys, k)
+		}
+	}
+	sort.Strings(goneKeys)
+	for _, g := range goneKeys {
+		var callers []*FuncInfo
+		for k, fp := range w.base.prints {
+			if fi := w.Funcs[k]; fi != nil && fi.SSA != nil && slices.Contains(fp, "gcall:"+g) {
+				callers = append(callers, fi)
+			}
+		}
+		gp := libraryPrint(w.base.prints[g])
+		if len(callers) == 0 || len(gp) < 2 {
+			continue
+		}
+		var cand map[string]bool
+		for _, cfi := range callers {
+			here := map[string]bool{}
+			allInstrsLocal(cfi.SSA, true, func(_ *ssa.Function, _ *ssa.BasicBlock, _ int, ins ssa.Instruction) {
+				if cl, ok := ins.(ssa.CallInstruction); ok {
+					if cf := cl.Common().StaticCallee(); cf != nil {
+						k := fnReal(cf)
+						if nf := w.Funcs[k]; nf != nil && !w.base.fns[k] && nameAlias[k] == "" && nf.Obj != nil && nf.Pkg.PkgPath == cfi.Pkg.PkgPath {
+							here[k] = true
+						}
+					}
+				}
+			})
+			if cand == nil {
+				cand = here
+			} else {
+				for k := range cand {
+					if !here[k] {
+						delete(cand, k)
+					}
+				}
+			}
+		}
+		best := ""
+		n := 0
+		for k := range cand {
+			np := libraryPrint(bodyPrint(w.Funcs[k]))
+			inNew := 0
+			for _, x := range gp {
+				if slices.Contains(np, x) {
+					inNew++
+				}
+			}
+			if inNew == len(gp) && jaccard(gp, np) >= 0.5 {
+				best = k
+				n++
+			}
+		}
+		if n == 1 {
+			nameAlias[best] = g
+			w.stats["functions_renamed_with_new_signature"]++
 		}
 	}
 	if len(nameAlias) == 0 {
